@@ -1130,6 +1130,19 @@ fn run_faults(a: &Args) -> anyhow::Result<String> {
         bases.push(Base { origin: "enc", kind, frames_end: an.frames_end, header_offs: an.headers.iter().map(|h| h.start).collect(), own: an.root, bytes });
     }
 
+    // valid xorbs with very many chunks (beyond any pre-allocation cap of the parsers; the format allows 8192): both
+    // validators must accept them for their own hash; only a few mutations of these are tried
+    let big_from = bases.len();
+    for nbig in if thorough { vec![1153usize, 2500, 8192] } else { vec![2000usize] } {
+        let chunks: Vec<Vec<u8>> = (0..nbig).map(|j| content(CLASSES[j % CLASSES.len()], 1 + (j * 7) % 61, &mut rng)).collect();
+        let (bytes, own) = real_serialize(&chunks, 9)?;
+        let an = xorbenc::analyze(&bytes);
+        if an.foot != "ok" || an.root != own {
+            anyhow::bail!("the independent reading of a real many-chunk serialization is not 'ok': {}", an.foot);
+        }
+        bases.push(Base { origin: "ser", kind: "v1", frames_end: an.frames_end, header_offs: an.headers.iter().map(|h| h.start).collect(), bytes, own });
+    }
+
     struct Inp {
         base: usize,
         mutation: String,
@@ -1141,6 +1154,16 @@ fn run_faults(a: &Args) -> anyhow::Result<String> {
     for (bi, b) in bases.iter().enumerate() {
         let len = b.bytes.len();
         inputs.push(Inp { base: bi, mutation: "none".into(), kind: b.kind, data: b.bytes.clone() });
+        if bi >= big_from {
+            for (name, off) in [("last-footer-byte", len - 1), ("first-footer-byte", b.frames_end), ("mid-footer", (b.frames_end + len) / 2), ("last-header", *b.header_offs.last().unwrap() + 1)] {
+                let mut d = b.bytes.clone();
+                d[off] ^= 0x01;
+                inputs.push(Inp { base: bi, mutation: format!("flip:{name}@{off}^0x1"), kind: "mut", data: d });
+            }
+            inputs.push(Inp { base: bi, mutation: format!("trunc@{}", len - 1), kind: "mut", data: b.bytes[..len - 1].to_vec() });
+            inputs.push(Inp { base: bi, mutation: format!("trunc@{}", b.frames_end), kind: "mut", data: b.bytes[..b.frames_end].to_vec() });
+            continue;
+        }
         // single-byte flips: every byte of every chunk header and of the footer region (payload bytes with a stride)
         let in_header = |off: usize| b.header_offs.iter().any(|s| off >= *s && off < *s + 8);
         for off in 0..len {
@@ -1196,7 +1219,7 @@ fn run_faults(a: &Args) -> anyhow::Result<String> {
         }
         // splices: a chunk region of another xorb inserted / substituted / appended, footers exchanged
         for (oi, other) in splice_src.iter().enumerate() {
-            if oi == bi {
+            if oi == bi || oi >= big_from {
                 continue;
             }
             let ob = &bases[oi];
